@@ -131,7 +131,7 @@ void fp12_frb(fp12_t c, const fp12_t a, int i) {
 void fp16_frb(fp16_t c, const fp16_t a, int i) {
 	/* Cost of four multiplication in Fp^2 per Frobenius. */
 	fp16_copy(c, a);
-	for (; i % 8 > 0; i--) {
+	for (; i % 16 > 0; i--) {
 		fp8_frb(c[0], c[0], 1);
 		fp8_frb(c[1], c[1], 1);
 		fp2_mul_frb(c[1][0][0], c[1][0][0], 2, 2);
